@@ -52,6 +52,9 @@ def gen(rng, tier):
 normalize_pair = TG.normalize_unpack_pair
 
 
+fix_candidate = TG.fix_typed_candidate
+
+
 def nontrivial(case, impl):
     return bool(case.get("_nt"))
 
